@@ -28,6 +28,12 @@ import vf
 
 BUILD = dict(extracted=['gates'], translators=set())
 
+
+# panics of the native expression backend (pyo3_runtime.PanicException) derive from BaseException,
+# so the per-clause handlers catch BaseException (interpreter exits are re-raised at the top level)
+CATCH = BaseException
+
+
 PI = math.pi
 ALIASES = {'CXGate': 'CNOTGate', 'ToffoliGate': 'CCXGate', 'MargolusGate': 'RCCXGate',
            'SXGate': 'SqrtXGate', 'SXdgGate': 'SqrtXdgGate'}
@@ -134,7 +140,7 @@ def spec(d, fixed_idx):
         return '[RSU3 %d]' % a[0]
     if cls in ('CKMGate', 'CKMdgGate'):
         # two transcriptions of get_grad exist: the one of the pinned commit (proved NOT to be the
-        # derivative, C18_grad_CKM_refuted) and the repaired one of fixes/D14.patch (proved correct).
+        # derivative, C18_grad_CKM_refuted) and the repaired one of fixes/C18-F1.patch (proved correct).
         # The implementation must equal one of them; which one is decided by a finite-difference probe.
         return '[%s%s]' % (cls[:-4], 'fixed' if _ckm_is_repaired(cls) else '')
     if cls in ('U1qPiGate', 'U1qPi2Gate'):
@@ -199,14 +205,14 @@ def input_class(d):
     if cls == 'ControlledGate':
         try:
             return 'constant_inner' if build(d['inner']).num_params == 0 else 'parameterized_inner'
-        except Exception:  # noqa
+        except CATCH:  # noqa
             return None
     if cls == 'PowerGate' and 'inner' in d:
         try:
             k = a[0] if a else d.get('kw', {}).get('power', 1)
             if k == 0 and set(build(d['inner']).radixes) not in ({2}, {3}):
                 return 'power0_other_radixes'
-        except Exception:  # noqa
+        except CATCH:  # noqa
             return None
     if cls == 'EmbeddedGate':
         try:
@@ -215,7 +221,7 @@ def input_class(d):
                 gr = np.asarray(inner.get_grad([]))
                 if gr.ndim != 3 and len(gr) > 0:
                     return 'inner_grad_malformed'
-        except Exception:  # noqa
+        except CATCH:  # noqa
             return None
     return None
 
@@ -253,7 +259,7 @@ def _root_cause(d):
             k = d['args'][0] if d['args'] else d.get('kw', {}).get('power', 1)
             if k == 0 and not _guessable(build(d['inner']).radixes):
                 return 'power0_other_radixes'
-    except Exception:  # noqa
+    except CATCH:  # noqa
         return None
     return None
 
@@ -496,7 +502,7 @@ def random_composed(ctx, count):
                 x = x['inner']
             if 'inner' in d and npow <= 1 and not tainted(d) and build(d).dim <= 36:
                 out.append(d)
-        except Exception:  # noqa  (generator bug, not an implementation failure: skip)
+        except CATCH:  # noqa  (generator bug, not an implementation failure: skip)
             continue
     return out
 
@@ -578,7 +584,7 @@ class Checker:
         self.seen_cls.add(cls)
         try:
             g = build(d)
-        except Exception as e:  # noqa
+        except CATCH as e:  # noqa
             if model_line is not None and model_line.startswith('OK'):
                 self.bad(d, 'raises', None, 'constructible (model accepts the arguments)',
                          f'{type(e).__name__}: {e}', 'constructor rejects arguments the model accepts')
@@ -608,7 +614,7 @@ class Checker:
         for p in P:
             try:
                 Us.append(g.get_unitary(p))
-            except Exception as e:  # noqa
+            except CATCH as e:  # noqa
                 self.bad(d, 'get_unitary_raises', p, 'a unitary', f'{type(e).__name__}: {e}', 'get_unitary raises')
                 return
         Un = np.array([np.asarray(u.numpy if hasattr(u, 'numpy') else u) for u in Us])
@@ -621,7 +627,7 @@ class Checker:
             grads = [np.asarray(g.get_grad(p)) for p in P]
         except NotImplementedError:
             differentiable = False
-        except Exception as e:  # noqa
+        except CATCH as e:  # noqa
             self.bad(d, 'grad_raises', P[0], 'a gradient', f'{type(e).__name__}: {e}', 'get_grad raises')
             differentiable = False
 
@@ -698,7 +704,7 @@ class Checker:
             for p, U, gk in zip(P[:3], Un, grads):
                 try:
                     U2, g2 = g.get_unitary_and_grad(p)
-                except Exception as e:  # noqa
+                except CATCH as e:  # noqa
                     self.bad(d, 'uag', p, 'a pair', f'{type(e).__name__}: {e}', 'get_unitary_and_grad raises')
                     break
                 g2 = np.asarray(g2)
@@ -721,7 +727,7 @@ class Checker:
                     self.bad(d, 'inverse', p, 'inverse(inverse_params) @ U == I', float(e),
                              'get_inverse().get_unitary(get_inverse_params(p)) is not the inverse')
                     break
-        except Exception as e:  # noqa
+        except CATCH as e:  # noqa
             self.bad(d, 'inverse', P[0], 'an inverse', f'{type(e).__name__}: {e}', 'get_inverse raises')
 
         # ---- composed == numpy composition of the parts
@@ -825,7 +831,7 @@ class Checker:
                     p = g.calc_params(V)
                     W = np.asarray(g.get_unitary(p))
                     dist = 1 - abs(np.trace(np.asarray(V).conj().T @ W)) / dim
-                except Exception as e:  # noqa
+                except CATCH as e:  # noqa
                     self.bad(d, 'calc_params', None, 'parameters', f'{type(e).__name__}: {e}', 'calc_params raises')
                     break
                 self.ctx.count('calc_params')
@@ -842,7 +848,7 @@ class Checker:
                     p = np.array(g.optimize(env), dtype=float)
                 except NotImplementedError:
                     return
-                except Exception as e:  # noqa
+                except CATCH as e:  # noqa
                     self.bad(d, 'optimize_raises', None, 'parameters', f'{type(e).__name__}: {e}', 'optimize raises')
                     return
 
@@ -881,13 +887,13 @@ class Checker:
     def check_eq_hash(self, d, g):
         try:
             g2 = build(d)
-        except Exception:  # noqa
+        except CATCH:  # noqa
             return
         self.ctx.count('eq_hash')
         try:
             same = (g == g2) and (g2 == g)
             hs = hash(g) == hash(g2)
-        except Exception as e:  # noqa
+        except CATCH as e:  # noqa
             self.bad(d, 'eq_hash', None, 'comparable and hashable', f'{type(e).__name__}: {e}', '==/hash raises')
             return
         if not same or not hs:
@@ -899,7 +905,7 @@ class Checker:
             ok = (g3 == g) and hash(g3) == hash(g)
             if ok and g.num_params == 0:
                 ok = np.abs(np.asarray(g3.get_unitary()) - np.asarray(g.get_unitary())).max() == 0
-        except Exception as e:  # noqa
+        except CATCH as e:  # noqa
             self.bad(d, 'pickle', None, 'picklable', f'{type(e).__name__}: {e}', 'pickle round trip raises')
             return
         if not ok:
@@ -932,7 +938,7 @@ def check_qiskit(ck: Checker):
     try:
         import qiskit.circuit.library as L
         from qiskit.quantum_info import Operator
-    except Exception as e:  # noqa
+    except CATCH as e:  # noqa
         ctx.assumptions.append(f'Qiskit reference skipped: {type(e).__name__}: {e}')
         return
     g = G()
@@ -944,7 +950,7 @@ def check_qiskit(ck: Checker):
             ref = Operator(getattr(L, qn)(*p)).reverse_qargs().data
             try:
                 U = np.asarray(gate.get_unitary(p))
-            except Exception as e:  # noqa
+            except CATCH as e:  # noqa
                 ck.bad(D(name), 'get_unitary_raises', p, 'a unitary', f'{type(e).__name__}: {e}', 'get_unitary raises')
                 break
             ctx.count('qiskit_ref')
@@ -976,7 +982,7 @@ def check_distinct(ck: Checker):
     for a, b in pairs:
         try:
             ga, gb = build(a), build(b)
-        except Exception:  # noqa
+        except CATCH:  # noqa
             continue
         ck.ctx.count('distinct_pairs')
         ck.ctx.case(('distinct', vf.canon(a), vf.canon(b)))
@@ -1006,13 +1012,13 @@ def check_equivalent_args(ck: Checker):
     for a, b in pairs:
         try:
             ga, gb = build(a), build(b)
-        except Exception:  # noqa
+        except CATCH:  # noqa
             continue
         ck.ctx.count('equivalent_arg_pairs')
         ck.ctx.case(('equiv', vf.canon(a), vf.canon(b)))
         try:
             same = (ga == gb) and (gb == ga) and hash(ga) == hash(gb)
-        except Exception as e:  # noqa
+        except CATCH as e:  # noqa
             same = False
         if not same:
             own_eq = type(ga).__eq__ is not object.__eq__
@@ -1097,7 +1103,7 @@ def check_cached_class(ck: Checker):
                 objs.append(getattr(g, c)(*a, **kw))
             except TypeError:
                 objs.append('T')
-            except Exception as e:  # noqa
+            except CATCH as e:  # noqa
                 objs.append('E:' + type(e).__name__)
         bad = None
         for i in range(len(seq)):
@@ -1142,7 +1148,9 @@ def run_descs(ctx, ck: Checker, ds, npts):
         line = None if s is None else next(outs)
         try:
             ck.check(d, line, npts)
-        except Exception as e:  # noqa  (an implementation call escaped the per-clause handlers)
+        except CATCH as e:  # noqa  (an implementation call escaped the per-clause handlers)
+            if isinstance(e, (KeyboardInterrupt, SystemExit)):
+                raise
             import traceback
             ck.bad(d, 'exception', None, 'no exception', f'{type(e).__name__}: {e}',
                    'unexpected exception while exercising the gate', dict(trace=traceback.format_exc()[-1500:]))
@@ -1226,6 +1234,9 @@ def replay(ctx: vf.Ctx, data):
     fixed_names = vf.run_model('gates', ['names'])[0].split()
     ck = Checker(ctx, fixed_names)
     case = data.get('case') or {}
+    if case.get('clause') == 'cached_class_identity':
+        check_cached_class(ck)
+        return
     if 'desc' not in case:
         return
     run_descs(ctx, ck, [case['desc']], 14)
